@@ -101,9 +101,9 @@ func vfGenTW(t *rapid.T) vfTWCase {
 	c.Burners = rapid.IntRange(0, 3).Draw(t, "burners")
 	c.W, c.H = 160, 120
 	c.FPS = rapid.SampledFrom([]int{1, 9, 30, 60}).Draw(t, "fps")
-	c.Model = rapid.SampledFrom([]string{"lepton3", "lepton3.5", "boson", "", "m: x"}).Draw(t, "model")
-	c.Brand = rapid.SampledFrom([]string{"flir", "", "true"}).Draw(t, "brand")
-	c.DevName = rapid.SampledFrom([]string{"dev", "", "a b", "名"}).Draw(t, "devname")
+	c.Model = rapid.SampledFrom([]string{"lepton3", "lepton3.5", "boson", "", "m: x", strings.Repeat("m", 92), strings.Repeat("M", 255)}).Draw(t, "model")
+	c.Brand = rapid.SampledFrom([]string{"flir", "", "true", strings.Repeat("b", 120)}).Draw(t, "brand")
+	c.DevName = rapid.SampledFrom([]string{"dev", "", "a b", "名", strings.Repeat("d", 76), strings.Repeat("d", 97), strings.Repeat("D", 255)}).Draw(t, "devname")
 	c.DevID = rapid.SampledFrom([]int{0, 7, 123456}).Draw(t, "devid")
 	if c.Frames > 0 && rapid.IntRange(0, 3).Draw(t, "clearframes") == 0 {
 		for i := rapid.IntRange(1, 3).Draw(t, "nclear"); i > 0; i-- {
